@@ -203,8 +203,6 @@ H("C17", "c17_metrics_stripe_index", "metrics", ["MetricsInner::add (index arith
 H("C17", "c17_metrics_inner", "metrics", ["MetricsInner::new", "MetricsInner::add", "MetricsInner::get", "MetricsInner::ratio", "MetricsInner::clear"], "the real 11 x 256 striped atomics; two arbitrary counter types, hashes and deltas < 2^62", timeout=7200, mem_gb=40, tier="thorough", fs_array=64)
 H("C17", "c17_cache_counts", "cache::sync", ["CacheProcessor::handle_item", "CacheProcessor::track_admission", "LFUPolicy::add (contract)", "LFUPolicy::update", "LFUPolicy::remove", "SampledLFU::update (metrics arm)"], "metrics on (recorder); <= 1 resident; one Update / Delete item for an arbitrary key (the New event's counters: c17_add_metrics_n2 and the wiring harness)", timeout=1800)
 H("C17", "c15_get_records", "cache::sync", ["Cache::get", "Cache::get_mut", "Metrics::add (call sites)"], "hits + misses == lookups on the open cache (see C15)", timeout=1800)
-IDX["C17"]["assumptions"].append(WIREA)
-H("C17", "c17_new_wiring", "cache::sync", WIRE, WIREB + "; keys_added counts exactly the admissions", timeout=1800, cover_tags=["new"], alias_of="c06_new_wiring")
 
 SCF = ["ShardedMap::try_cleanup", "ExpirationMap::try_cleanup", "ShardedMap::expiration", "ShardedMap::try_remove", "LFUPolicy::cost", "LFUPolicy::remove", "Time::is_expired", "Time::is_zero"]
 SCB = "one resident entry (with or without TTL, charged) that is filed properly, or not filed, plus optionally a stale listing of its key under an arbitrary bucket within 6 s of now; cleanup pass at an arbitrary instant <= 8 s later"
@@ -221,6 +219,8 @@ for pid in ("C06", "C08", "C16"):
 H("C06", "c06_new_wiring", "cache::sync", WIRE, WIREB, timeout=1800, cover_tags=["new"])
 H("C08", "c08_new_wiring", "cache::sync", WIRE, WIREB, timeout=1800, cover_tags=["new"], alias_of="c06_new_wiring")
 H("C16", "c16_new_wiring", "cache::sync", WIRE, WIREB, timeout=1800, cover_tags=["new"], alias_of="c06_new_wiring")
+IDX["C17"]["assumptions"].append(WIREA)
+H("C17", "c17_new_wiring", "cache::sync", WIRE, WIREB + "; keys_added counts exactly the admissions", timeout=1800, cover_tags=["new"], alias_of="c06_new_wiring")
 
 # cross-property aliases (same harness function, decided once per tree thanks to the verdict cache)
 H("C02", "c02_client_remove", "cache::sync", REM, "remove of an arbitrary key from an arbitrary quiescent state, then the queued Delete is processed: the key is unretrievable from the moment remove returns and stays so", timeout=1800, cover_tags=["client"], alias_of="c08_client_remove")
